@@ -95,6 +95,11 @@ func parseCommand(c *updateContext, entry sm.Entry) (command, error) {
 				return commandDummy{}, err
 			}
 			if *cmd.LeaderIndex <= current {
+				// The table stays where it is, which is also what the applied index listener has to hear
+				// (not the local index of an update that carried nothing else).
+				if c.leaderIndex == nil {
+					c.leaderIndex = &current
+				}
 				return commandDummy{}, nil
 			}
 			c.replicatedUpTo = current
